@@ -157,4 +157,33 @@ theorem verifyAndPoolTx_eq (c : Chain) (p : Pool) (t : Tx) (hh : c.height + c.ma
         repeat' split at hp
         all_goals (first | (simp at hp; subst hp; simp [errLabel]) | simp at hp)
 
+/-- `uint256.Cmp`. -/
+def cmpNat (a b : Nat) : Int := if a < b then -1 else if a = b then 0 else 1
+
+/-- the names `mempool` gives the two balance errors (`verifyAndPoolTx` renames ErrConflict to ErrMemPoolConflict). -/
+def poolLabel : Option Err → String
+  | none => "ok"
+  | some .insufficientFunds => "ErrInsufficientFunds"
+  | some .poolConflict => "ErrConflict"
+  | some _ => "other"
+
+/-- the translated `mempool.checkBalance`, fed with the two comparisons it makes (balance against the transaction's
+fees, then against fees + what the payer has pooled), orders and labels its outcomes like the balance part of the
+model's `poolAdd`: "insufficient funds" first, then "conflict" (the pooled sum), else accepted. -/
+theorem checkBalance_eq (p : Pool) (t : Tx) (h1 : p.has t.hash = false) (h2 : p.conflictsAttrErr = false)
+    (h3 : p.oracleErr = false) (h4 : p.full = false) :
+    (GoFuncs.mempoolCheckBalance (cmpNat p.balance (t.sysFee + t.netFee)) (cmpNat p.balance (t.sysFee + t.netFee + p.feeSum))).2.1
+      = poolLabel (poolAdd p t) := by
+  unfold GoFuncs.mempoolCheckBalance poolAdd cmpNat
+  simp only [h1, h2, h3, h4, Bool.false_eq_true, if_false]
+  by_cases a : p.balance < t.sysFee + t.netFee
+  · simp [a, poolLabel]
+  · have a' : ¬ ((if p.balance = t.sysFee + t.netFee then (0 : Int) else 1) < 0) := by split <;> omega
+    simp only [a, if_false, a']
+    by_cases b : p.balance < t.sysFee + t.netFee + p.feeSum
+    · simp [b, poolLabel]
+    · have b' : ¬ ((if p.balance = t.sysFee + t.netFee + p.feeSum then (0 : Int) else 1) < 0) := by split <;> omega
+      simp only [b, if_false, b']
+      rfl
+
 end NeoModel.GoFuncsTieC07
